@@ -23,7 +23,7 @@ import itertools
 
 import numpy as np
 
-from mc.core import Outcome
+from mc.core import Outcome, jsonable
 from mc.oracles import grpJ_exact as X
 from mc.oracles import grpJ_tess as T
 
@@ -56,15 +56,18 @@ CHUNK = 2
 
 TOL = 1e-12
 
-def _viol(out: Outcome, what: str, **detail):
-    """At most two written-out violations per case and kind of message; the rest is counted."""
-    kind = what.split(":")[0].split(" raised")[0]
+def _viol(out: Outcome, what: str, cls: str = "other", **detail):
+    """At most two written-out violations per case, kind of message and classification
+    (registered finding / other), so that reports of a registered finding can never crowd
+    out a violation of another kind; the rest is counted."""
+    kind = (cls, what.split(":")[0].split(" raised")[0])
     cnt = out.extra.setdefault("_cap", {})
     cnt[kind] = cnt.get(kind, 0) + 1
     if cnt[kind] <= 2:
         out.violate(what, **detail)
     else:
-        out.extra["suppressed_violation_reports"] = out.extra.get("suppressed_violation_reports", 0) + 1
+        name = "suppressed_violation_reports" + ("" if cls == "other" else "_known_kind")
+        out.extra[name] = out.extra.get(name, 0) + 1
 
 
 # ------------------------------------------------------------------ 1-d
@@ -128,8 +131,25 @@ def _tess_list(domain, stretch, max_extra):
     return out
 
 
+# Sharp letters kept in every tier: embedded pairs in which a vertex of one triangle lies on an
+# edge of a triangle of the other tessellation (found by the thorough tier; the in-plane rotation
+# of match_2d perturbs such contacts by 1e-16, see known_finding below).
+SHARP_PAIRS = [
+    ("square", "id", 2, ((0, 0), (2, 0), (2, 2), (0, 2), (2, 1), (1, 1)), ((0, 1, 5), (0, 3, 5), (1, 4, 5), (2, 3, 5), (2, 4, 5)),
+     ((0, 0), (2, 0), (2, 2), (0, 2), (2, 1)), ((0, 1, 3), (1, 3, 4), (2, 3, 4))),
+    ("square", "id", 1, ((0, 0), (2, 0), (2, 2), (0, 2), (1, 2), (1, 1)), ((0, 1, 5), (0, 3, 4), (0, 4, 5), (1, 2, 4), (1, 4, 5)),
+     ((0, 0), (2, 0), (2, 2), (0, 2), (1, 2)), ((0, 1, 2), (0, 2, 4), (0, 3, 4))),
+    ("square", "s3", 1, ((0, 0), (3, 0), (3, 3), (0, 3)), ((0, 1, 3), (1, 2, 3)),
+     ((0, 0), (3, 0), (3, 3), (0, 3), (0, 1), (1, 1)), ((0, 1, 4), (1, 2, 3), (1, 3, 5), (1, 4, 5), (3, 4, 5))),
+    ("square", "s3", 2, ((0, 0), (3, 0), (3, 3), (0, 3), (3, 1)), ((0, 1, 3), (1, 3, 4), (2, 3, 4)),
+     ((0, 0), (3, 0), (3, 3), (0, 3), (1, 0), (1, 1)), ((0, 3, 5), (0, 4, 5), (1, 2, 3), (1, 3, 5), (1, 4, 5))),
+]
+
+
 def cases(tier):
     out = []
+    for k in range(len(SHARP_PAIRS)):
+        out.append({"kind": "tri_pair", "pair": k, "domain": SHARP_PAIRS[k][0], "stretch": SHARP_PAIRS[k][1], "embed": SHARP_PAIRS[k][2]})
     for e in range(len(LINE_EMBED)):
         for a in range(2 ** (NL - 1)):
             out.append({"kind": "line", "embed": e, "a": a})
@@ -173,29 +193,35 @@ def _check_overlaps(out, name, got, exact, meas_a, meas_b, scale, detail):
 
 def _check_match(out, name, fn, g_new, g_old, exact, meas_new, meas_old):
     """averaged rows sum to 1 and equal overlap/|new cell|; integrated columns sum to 1 and equal
-    overlap/|old cell|; None = indicator of positive overlap."""
+    overlap/|old cell|; None = indicator of positive overlap. Returns a list of
+    (message, detail) with one entry per failing scaling; detail carries the matrix returned."""
     nn, no = len(meas_new), len(meas_old)
+    fails = []
     for scaling in ("averaged", "integrated", None):
         try:
             M = fn(g_new, g_old, 1e-8, scaling=scaling)
             A = np.asarray(M.todense(), dtype=float)
         except Exception as e:
-            return f"{name}(scaling={scaling}) raised {e!r}"
+            fails.append((f"{name}(scaling={scaling}) raised {e!r}", {"scaling": scaling}))
+            continue
+        det = {"scaling": scaling, "got_matrix": A}
         if A.shape != (nn, no):
-            return f"{name}(scaling={scaling}): shape {A.shape}, expected {(nn, no)}"
+            fails.append((f"{name}(scaling={scaling}): shape {A.shape}, expected {(nn, no)}", det))
+            continue
         E = np.zeros((nn, no))
         for (i, j), ex in exact.items():
             E[i, j] = float(ex / meas_new[i]) if scaling == "averaged" else float(ex / meas_old[j]) if scaling == "integrated" else 1.0
+        det["exact_matrix"] = E
         if scaling == "averaged" and np.abs(A.sum(axis=1) - 1.0).max() > TOL * 10:
-            return f"{name}(averaged): row sums {A.sum(axis=1).tolist()} are not one"
-        if scaling == "integrated" and np.abs(A.sum(axis=0) - 1.0).max() > TOL * 10:
-            return f"{name}(integrated): column sums {A.sum(axis=0).tolist()} are not one"
-        if not np.all(A >= 0):
-            return f"{name}(scaling={scaling}): negative entry"
-        if np.abs(A - E).max() > TOL * 10:
+            fails.append((f"{name}(averaged): row sums {A.sum(axis=1).tolist()} are not one", det))
+        elif scaling == "integrated" and np.abs(A.sum(axis=0) - 1.0).max() > TOL * 10:
+            fails.append((f"{name}(integrated): column sums {A.sum(axis=0).tolist()} are not one", det))
+        elif not np.all(A >= 0):
+            fails.append((f"{name}(scaling={scaling}): negative entry", det))
+        elif np.abs(A - E).max() > TOL * 10:
             i, j = np.unravel_index(np.argmax(np.abs(A - E)), A.shape)
-            return f"{name}(scaling={scaling}): entry ({i},{j}) is {A[i, j]}, exact {E[i, j]}"
-    return None
+            fails.append((f"{name}(scaling={scaling}): entry ({i},{j}) is {A[i, j]}, exact {E[i, j]}", det))
+    return fails
 
 
 # ------------------------------------------------------------------ line cases
@@ -252,9 +278,10 @@ def _run_line(case, out: Outcome):
             bad = f"line_tessellation raised {e!r}"
             nzero = 0
         if bad is None:
-            bad = _check_match(out, "match_1d", match_1d, ga, gb, exact, meas_a, meas_b)
+            fails = _check_match(out, "match_1d", match_1d, ga, gb, exact, meas_a, meas_b)
+            bad = fails[0][0] if fails else None
         if bad:
-            _viol(out, bad, embedding=name, nodes_a=(np.array(na) / NL), nodes_b=(np.array(nb) / NL), origin=origin, direction=direction,
+            _viol(out, bad, "other", embedding=name, nodes_a=(np.array(na) / NL), nodes_b=(np.array(nb) / NL), origin=origin, direction=direction,
                         b_reversed=rev_b)
             out.ev("line/VIOLATION", key)
         else:
@@ -294,7 +321,12 @@ def _run_tri(case, out: Outcome):
     from porepy.geometry.intersections import surface_tessellations, triangulations
     from porepy.grids.match_grids import match_2d
 
-    tess = _tess_list(case["domain"], case["stretch"], case["max_extra"])
+    if case["kind"] == "tri_pair":
+        sp = SHARP_PAIRS[case["pair"]]
+        tess = [(sp[3], sp[4]), (sp[5], sp[6])]
+        case = dict(case, a=0)
+    else:
+        tess = _tess_list(case["domain"], case["stretch"], case["max_extra"])
     plane = PLANE_EMBED[case["embed"]]
     _, o, u, v = plane
     jac = float(np.linalg.norm(np.cross(np.array(u), np.array(v))))
@@ -305,6 +337,8 @@ def _run_tri(case, out: Outcome):
     ga = _tri_grid(pts_a, tri_a, plane)
     cells_ga = _grid_cell_triangles(ga, pts_a)
     for b, (pts_b, tri_b) in enumerate(tess):
+        if case["kind"] == "tri_pair" and b == 0:
+            continue
         fb = [[T._f2(pts_b[k]) for k in t] for t in tri_b]
         area_b = [T.tri_area(t) for t in fb]
         exact = {}
@@ -346,14 +380,22 @@ def _run_tri(case, out: Outcome):
         # cell volumes of the grids must be the exact areas times the Jacobian (harness sanity)
         if np.abs(ga.cell_volumes - np.array([float(area_a[i]) for i in ia]) * jac).max() > 1e-10 * jac:
             raise AssertionError("harness: embedded grid has unexpected cell volumes")
-        bad = _check_match(out, "match_2d", match_2d, ga, gb, ex_g, [area_a[i] for i in ia], [area_b[j] for j in ib])
-        if bad:
-            bads.append(bad)
-        if bads:
-            for bad in bads:
-                _viol(out, bad, domain=case["domain"], stretch=case["stretch"], embedding=plane[0], points_a=pts_a, triangles_a=tri_a,
+        mfails = _check_match(out, "match_2d", match_2d, ga, gb, ex_g, [area_a[i] for i in ia], [area_b[j] for j in ib])
+        common = dict(domain=case["domain"], stretch=case["stretch"], embedding=plane[0], points_a=pts_a, triangles_a=tri_a,
                       points_b=pts_b, triangles_b=tri_b)
-            out.ev("tri/VIOLATION", key)
+        if bads or mfails:
+            kinds = set()
+            for bad in bads:
+                _viol(out, bad, "other", **common)
+                kinds.add("other")
+            for msg, det in mfails:
+                full = dict(common, cells_new=[tri_a[i] for i in ia], cells_old=[tri_b[j] for j in ib], **det)
+                probe = {"what": msg}
+                probe.update({k_: jsonable(v_) for k_, v_ in full.items()})
+                kf = known_finding(case, probe)
+                kinds.add(kf or "other")
+                _viol(out, msg, kf or "other", **full)
+            out.ev("tri/VIOLATION" + ("" if "other" in kinds else ":" + "+".join(sorted(kinds))), key)
         else:
             rel = "same" if (pts_a, tri_a) == (pts_b, tri_b) else "same-points" if pts_a == pts_b else "different-points"
             out.ev(f"tri/{case['domain']}/{plane[0]}/{rel}" + ("/touch0" if ntouch else ""), key)
@@ -411,7 +453,7 @@ def run_case(case) -> Outcome:
     out = Outcome()
     if case["kind"] == "line":
         _run_line(case, out)
-    elif case["kind"] == "tri":
+    elif case["kind"] in ("tri", "tri_pair"):
         _run_tri(case, out)
     else:
         raise ValueError(case["kind"])
@@ -419,5 +461,91 @@ def run_case(case) -> Outcome:
     return out
 
 
+KNOWN_GEOS_TOUCHING = "C33-geos-overlay-touching-triangles"
+KNOWN_GEOS_CONTAINED = "C33-geos-overlay-contained-triangle"
+
+
+def _closed_intersect(P, Q) -> bool:
+    """Closed convex polygons (exact vertices) have a common point: no edge line of either
+    strictly separates them."""
+    for A_, B_ in ((P, Q), (Q, P)):
+        A_ = T._ccw(list(A_))
+        for i in range(len(A_)):
+            a, b = A_[i], A_[(i + 1) % len(A_)]
+            if all(X.orient2d(a, b, q) < 0 for q in B_):
+                return False
+    return True
+
+
+def _boundary_contact(P, Q) -> bool:
+    """A vertex of one triangle lies on a closed edge of the other."""
+    for A_, B_ in ((P, Q), (Q, P)):
+        for v in A_:
+            for i in range(len(B_)):
+                if X.on_segment_2d(v, B_[i], B_[(i + 1) % len(B_)]):
+                    return True
+    return False
+
+
 def known_finding(case, viol):
+    """Registered finding: GEOS (shapely) overlay returns a wrong polygon for two triangles in
+    boundary contact once match_2d has rotated them into the plane (1e-16 noise).
+
+    Decided from the INPUT with the exact rational oracle. Key KNOWN_GEOS_TOUCHING iff the case is
+    an embedded (not xy-plane) pair, the violation is a match_2d matrix, and EVERY entry (i, j)
+    that differs from the exact matrix belongs to two triangles whose exact intersection is
+    non-empty with zero area, the reported value being the full area of one of the two triangles
+    (to 1e-9; for scaling=None: a spurious 1). All other entries agree with the exact matrix, so
+    the wrong row/column sums are fully explained by these entries. A second signature of the
+    same mechanism (one triangle contained in the other with boundary contact, overlap reported
+    as 0) yields KNOWN_GEOS_CONTAINED; it only counts if that key is registered."""
+    try:
+        if not case or case.get("kind") not in ("tri", "tri_pair") or PLANE_EMBED[case["embed"]][0] == "xy":
+            return None
+        what = viol.get("what", "")
+        if not what.startswith("match_2d(") or "raised" in what or "got_matrix" not in viol:
+            return None
+        scaling = viol.get("scaling")
+        pa = [tuple(p) for p in viol["points_a"]]
+        pb = [tuple(p) for p in viol["points_b"]]
+        cells_new = [tuple(t) for t in viol["cells_new"]]
+        cells_old = [tuple(t) for t in viol["cells_old"]]
+        if sorted(map(sorted, cells_new)) != sorted(map(sorted, viol["triangles_a"])) or \
+                sorted(map(sorted, cells_old)) != sorted(map(sorted, viol["triangles_b"])):
+            return None
+        A = np.array(viol["got_matrix"], dtype=float)
+        fa = [[T._f2(pa[k]) for k in t] for t in cells_new]
+        fb = [[T._f2(pb[k]) for k in t] for t in cells_old]
+        if A.shape != (len(fa), len(fb)):
+            return None
+        sig = set()
+        for i, ta in enumerate(fa):
+            for j, tb in enumerate(fb):
+                ai, aj = T.tri_area(ta), T.tri_area(tb)
+                ov = T.overlap_area(ta, tb)
+                den = ai if scaling == "averaged" else aj if scaling == "integrated" else None
+                exact_entry = float(ov / den) if den is not None else (1.0 if ov > 0 else 0.0)
+                got = float(A[i, j])
+                if abs(got - exact_entry) <= TOL * 10:
+                    continue
+                # a wrong entry: which signature?
+                if ov == 0 and _closed_intersect(ta, tb):
+                    if den is None:
+                        ok = got == 1.0
+                    else:
+                        rep = got * float(den)  # reported overlap area
+                        ok = min(abs(rep - float(ai)), abs(rep - float(aj))) <= 1e-9 * float(max(ai, aj))
+                    if ok:
+                        sig.add("touching")
+                        continue
+                if ov > 0 and ov == min(ai, aj) and _boundary_contact(ta, tb) and abs(got) <= TOL * 10:
+                    sig.add("contained")
+                    continue
+                return None
+        if sig == {"touching"}:
+            return KNOWN_GEOS_TOUCHING
+        if sig and sig <= {"touching", "contained"}:
+            return KNOWN_GEOS_CONTAINED
+    except Exception:
+        return None
     return None
